@@ -355,6 +355,8 @@ def validate_evidence(ev: dict):
 
 def write_evidence(check: Check, tier, verif_seed, agg: Aggregate, wall_s,
                    n_violations, known_hit, selftest, extra=None):
+    if os.environ.get("EVO_VERIF_NO_EVIDENCE") == "1":
+        return "(evidence not written: sensitivity run on a scratch tree)"
     os.makedirs(EVIDENCE_DIR, exist_ok=True)
     runs_per_hour = int(agg.evaluations / max(wall_s, 1e-9) * 3600)
     samples = []
